@@ -2,6 +2,7 @@ import PysamlModel.Core.Proto
 import PysamlModel.Model.Sp
 import PysamlModel.Spec.Sp
 import PysamlModel.Gen.StatusCodes
+import PysamlModel.Model.SpAttr
 open Lean Proto Sp
 
 def parseSig (s : String) : Sig :=
@@ -67,7 +68,10 @@ def parseEnv (j : Json) : Env :=
   let conv := obj? j "conv_info"
   { now := intD j "now", bindingOk := b != "paos", asynchop := !(b == "soap" || b == "paos"),
     outstanding := (arrD j "outstanding").filterMap (fun p => match asStrList (asArr p) with | [a, b] => some (a, b) | _ => none),
-    convInfo := conv.isSome,
+    -- `if not self.conv_info`: an empty dictionary counts as no conversation information
+    convInfo := (match conv with
+      | some c => (str? c "entity_id").isSome || (str? c "remote_addr").isSome
+      | none => false),
     convEntityId := conv.bind (fun c => str? c "entity_id"),
     remoteAddr := conv.bind (fun c => str? c "remote_addr") }
 
@@ -116,27 +120,49 @@ def handle (line : Json) : Json :=
   let impl := (obj? line "impl").getD Json.null
   let cfgJ := (obj? c "cfg").getD (Json.mkObj [])
   let defaults := (obj? c "defaults").getD (Json.mkObj [])
-  let cfg := parseCfg cfgJ defaults (strList c "return_addrs") (strD c "entity_id")
-  let opts := parseOpts cfgJ
-  let env := parseEnv ((obj? c "env").getD (Json.mkObj []))
-  let r := parseResponse ((obj? c "resp").getD (Json.mkObj []))
-  let m := process cfg env r
+  let cfg0 := parseCfg cfgJ defaults (strList c "return_addrs") (strD c "entity_id")
+  let opts0 := parseOpts cfgJ
+  let envJ := (obj? c "env").getD (Json.mkObj [])
+  let env0 := parseEnv envJ
+  let r0 := parseResponse ((obj? c "resp").getD (Json.mkObj []))
+  -- attribute-query answers (`parse_attribute_query_response`): the reduction of Model/SpAttr.lean
+  let isAttr := strD envJ "kind" == "attr"
+  -- on that path the code applies none of the three signature options (Model/SpAttr.lean, `attrCfg`); C01's
+  -- statement is about authentication responses, so for attribute answers the specification is evaluated with the
+  -- options the code applies there: every signature present must still verify
+  let opts : SigOpts := if isAttr then { wantResp := some false, wantAssert := some false, wantEither := some false } else opts0
+  let cfg := if isAttr then attrCfg cfg0 else cfg0
+  let env := if isAttr then attrEnv env0 else env0
+  let r := if isAttr then attrView r0 else r0
+  let m := if isAttr then processAttr cfg0 env0 r0 else process cfg env r
   let io := parseOutcome impl
   -- the configuration the PROPERTY talks about: options resolved with the property's defaults
   let cfgP : Cfg := { cfg with wantResp := opts.wantResp.getD true, wantAssert := opts.wantAssert.getD false,
                                 wantEither := opts.wantEither.getD false,
-                                allowUnsolicited := (bool? cfgJ "allow_unsolicited").getD false }
+                                allowUnsolicited := !isAttr && (bool? cfgJ "allow_unsolicited").getD false }
   let path := match m with
     | .identity o => "identity" ++ (if o.cached then "" else "/uncached")
     | .noIdentity => "none"
     | .rejected e => "rejected/" ++ errName e
   -- status class: when the implementation raises a Status* error it must be the one the table names
   let implErr := strD impl "err"
+  -- which error wins when a Response has several defects is not part of the property: the status class is demanded
+  -- (and compared between model and implementation) only when the status is the only defect, i.e. the Success copy
+  -- of the Response is accepted, or lacks nothing but an assertion
+  let rOk : Response := { r with statusTop := "urn:oasis:names:tc:SAML:2.0:status:Success", statusSecond := none }
+  let statusOnly : Bool := match process cfg env rOk with
+    | .identity _ => true
+    | .rejected .invalidAssertionCount => r.assertions.isEmpty
+    | .noIdentity => r.assertions.isEmpty
+    | _ => false
   let statusOk : Bool :=
     (!(strD impl "r" == "rejected" && implErr.startsWith "Status") || implErr == statusClass r.statusSecond) &&
     (match m with
-     | .rejected (.status s) => strD impl "r" == "rejected" && implErr == statusClass s
+     | .rejected (.status s) => strD impl "r" == "rejected" && (implErr == statusClass s || !statusOnly)
      | _ => true)
+  let modelJson : Json := match m with
+    | .rejected (.status _) => if statusOnly then outcomeToJson m else outcomeToJson (.rejected .unknownBinding)
+    | _ => outcomeToJson m
   let spec (out : Outcome) (isImpl : Bool) : List (String × Bool) :=
     [("C01s", specC01Sound opts r out), ("C01c", specC01Complete opts cfgP env r out),
      ("C04", specC04 cfgP env r out),
@@ -148,7 +174,7 @@ def handle (line : Json) : Json :=
   let si := pick (spec io true)
   let sm := pick (spec m false)
   let failing := (si.filter (fun p => !p.2)).map (·.1)
-  Json.mkObj [("model", outcomeToJson m), ("path", path),
+  Json.mkObj [("model", modelJson), ("path", path),
     ("spec_impl", si.all (·.2)), ("spec_model", sm.all (·.2)),
     ("why", jstrs failing)]
 
